@@ -47,3 +47,166 @@ pub fn h_vacant_insert_full_frame<K: Shape, V: Shape, const N: usize>() {
         e.insert(v);
     }
 }
+
+// ---------------------------------------------------------------- bitwise snapshots
+// Contract expressions are type-checked in the generic context of the real impl
+// block (no bounds on K, V), so the vocabulary is bytes: swap-remove and insert
+// *move* elements, hence "slot j afterwards is bit-identical to slot j' before" is
+// the strongest statement of what they do.
+
+pub const MAXB: usize = 64;
+
+#[derive(Clone, Copy)]
+pub struct Snap {
+    pub len: usize,
+    pub bytes: [u8; MAXB],
+    pub esz: usize,
+}
+
+pub fn snap<K, V, const N: usize>(m: &Map<K, V, N>) -> Snap {
+    let esz = core::mem::size_of::<(K, V)>();
+    let total = esz * N;
+    assert!(total <= MAXB, "harness: snapshot buffer too small");
+    let mut bytes = [0u8; MAXB];
+    let src = m.pairs.as_ptr() as *const u8;
+    let mut i = 0;
+    while i < MAXB {
+        if i < total {
+            bytes[i] = unsafe { *src.add(i) };
+        }
+        i += 1;
+    }
+    Snap { len: m.len, bytes, esz }
+}
+
+/// slot `a` of snapshot `x` has the same bytes as slot `b` of snapshot `y`
+pub fn slot_eq(x: &Snap, a: usize, y: &Snap, b: usize) -> bool {
+    let mut ok = x.esz == y.esz;
+    let mut i = 0;
+    while i < MAXB {
+        if i < x.esz && x.bytes[a * x.esz + i] != y.bytes[b * y.esz + i] {
+            ok = false;
+        }
+        i += 1;
+    }
+    ok
+}
+
+pub fn val_eq_slot<T>(v: &T, x: &Snap, a: usize) -> bool {
+    let p = v as *const T as *const u8;
+    let mut ok = core::mem::size_of::<T>() == x.esz;
+    let mut i = 0;
+    while i < MAXB {
+        if i < x.esz && unsafe { *p.add(i) } != x.bytes[a * x.esz + i] {
+            ok = false;
+        }
+        i += 1;
+    }
+    ok
+}
+
+/// swap-remove post-condition in bytes
+pub fn post_swap_remove<K, V, const N: usize>(old: &Snap, m: &Map<K, V, N>, i: usize, r: &(K, V)) -> bool {
+    let new = snap(m);
+    let mut ok = new.len + 1 == old.len && val_eq_slot(r, old, i);
+    if i != new.len && !slot_eq(&new, i, old, old.len - 1) {
+        ok = false;
+    }
+    let mut j = 0;
+    while j < N {
+        if j < new.len && j != i && !slot_eq(&new, j, old, j) {
+            ok = false;
+        }
+        j += 1;
+    }
+    ok
+}
+
+/// nothing but slot `i` differs between the snapshots (and len is the same)
+pub fn only_slot_changed<K, V, const N: usize>(old: &Snap, m: &Map<K, V, N>, i: usize) -> bool {
+    let new = snap(m);
+    let mut ok = new.len == old.len;
+    let mut j = 0;
+    while j < N {
+        if j != i && !slot_eq(&new, j, old, j) {
+            ok = false;
+        }
+        j += 1;
+    }
+    ok
+}
+
+pub fn slot_is<K, V, const N: usize>(m: &Map<K, V, N>, i: usize, val: &Snap) -> bool {
+    slot_eq(&snap(m), i, val, 0)
+}
+
+pub fn snap_val<T>(v: &T) -> Snap {
+    let esz = core::mem::size_of::<T>();
+    assert!(esz <= MAXB);
+    let mut bytes = [0u8; MAXB];
+    let p = v as *const T as *const u8;
+    let mut i = 0;
+    while i < MAXB {
+        if i < esz {
+            bytes[i] = unsafe { *p.add(i) };
+        }
+        i += 1;
+    }
+    Snap { len: 0, bytes, esz }
+}
+
+pub fn slot_addr<K, V, const N: usize>(m: &Map<K, V, N>, i: usize) -> usize {
+    unsafe { (m.pairs.as_ptr() as *const (K, V)).add(i) as usize }
+}
+
+/// needed by `stub_verified`: the havocked `self` of a contract with `modifies(self)`
+impl<K: kani::Arbitrary, V: kani::Arbitrary, const N: usize> kani::Arbitrary for Map<K, V, N> {
+    fn any() -> Self {
+        let mut m: Map<K, V, N> = Map::new();
+        let len: usize = kani::any();
+        kani::assume(len <= N);
+        let mut i = 0;
+        while i < N {
+            m.pairs[i] = core::mem::MaybeUninit::new((kani::any(), kani::any()));
+            i += 1;
+        }
+        m.len = len;
+        m
+    }
+}
+
+// ---------------------------------------------------------------- contract proof harnesses
+
+/// which: 0 item_read 1 item_write 2 item_drop 3 item_ref 4 item_mut 5 value_mut
+pub fn h_accessor<const N: usize>(which: u8) {
+    let mut m: Map<u8, u16, N> = any_map_weak_raw();
+    let i: usize = kani::any();
+    kani::cover!(i < N, "reached");
+    match which {
+        0 => {
+            let _ = unsafe { m.item_read(i) };
+        }
+        1 => unsafe { m.item_write(i, (kani::any(), kani::any())) },
+        2 => unsafe { m.item_drop(i) },
+        3 => {
+            let _ = unsafe { m.item_ref(i) };
+        }
+        4 => {
+            let _ = unsafe { m.item_mut(i) };
+        }
+        _ => {
+            let _ = unsafe { m.value_mut(i) };
+        }
+    }
+}
+
+fn any_map_weak_raw<K: kani::Arbitrary, V: kani::Arbitrary, const N: usize>() -> Map<K, V, N> {
+    kani::any()
+}
+
+pub fn h_remove_index_read<const N: usize>() {
+    let mut m: Map<u8, u16, N> = any_map_weak_raw();
+    let i: usize = kani::any();
+    kani::cover!(i < m.len, "reached");
+    let _ = unsafe { m.remove_index_read(i) };
+}
